@@ -258,3 +258,9 @@ Proof.
       - destruct O. }
     destruct O' as [O1 O2]. split; [eapply call_ok_trans; eauto | constructor; auto].
 Qed.
+
+(** C06, last clause: a socket read leaves the socket's own timeout as it found it, whatever the outcome; it is the same read *)
+Theorem sock_timeout_restored sk t k s size :
+  let '(r, k', s', sk') := sock_read_t sk t k s size in
+  own sk' = own sk /\ (r, k', s') = sock_read k s size /\ tlog sk' = tlog sk ++ [t; own sk].
+Proof. unfold sock_read_t. destruct (sock_read k s size) as [[r k'] s']. cbn. auto. Qed.
